@@ -206,3 +206,50 @@ Definition sk_deserialize (b : bytes) : N := bev b.
 Definition id_serialize (v : N) : option bytes :=
   let b := beb v in if (32 <? length b)%nat then None else Some (pad_to 32 b).
 Definition id_deserialize (b : bytes) : N := bev b.
+
+(* ---------- 4. hash to G1 and the group law (affine), for the Sign tie on small scalars ---------- *)
+(* math/big ModSqrt for p = 3 mod 4: t^((p+1)/4), nil when t is not a square *)
+Definition fsqrt (t : Z) : option Z :=
+  let y := fpow t ((P + 1) / 4) in if fmul y y =? t mod P then Some y else None.
+(* bn256.go hashToCurvePoint: x = sha256(m) mod p, try-and-increment until x^3 + 3 is a square *)
+Fixpoint hash_point (fuel : nat) (x : Z) : option (Z * Z) :=
+  match fuel with
+  | O => None                                  (* out of fuel: excluded by the theorems *)
+  | S f => let t := fadd (fmul (fmul x x) x) 3 in
+           match fsqrt t with
+           | Some y => Some (x, y)
+           | None => hash_point f (x + 1)
+           end
+  end.
+Definition hash_to_g1 (digest : bytes) : g1 :=
+  match hash_point 64 (bytesZ digest mod P) with
+  | Some (x, y) => G1Aff (x mod P) y
+  | None => G1Nil
+  end.
+
+Definition g1_neg (v : g1) : g1 :=
+  match v with G1Aff x y => G1Aff x (fsub 0 y) | _ => v end.
+Definition g1_double (v : g1) : g1 :=
+  match v with
+  | G1Aff x y =>
+      if y =? 0 then G1Inf else
+      let l := fmul (fmul 3 (fmul x x)) (finv (fmul 2 y)) in
+      let x3 := fsub (fmul l l) (fmul 2 x) in
+      G1Aff x3 (fsub (fmul l (fsub x x3)) y)
+  | _ => v
+  end.
+Definition g1_add (a b : g1) : g1 :=
+  match a, b with
+  | G1Nil, _ | _, G1Nil => G1Nil
+  | G1Inf, _ => b
+  | _, G1Inf => a
+  | G1Aff x1 y1, G1Aff x2 y2 =>
+      if x1 =? x2 then (if y1 =? y2 then g1_double a else G1Inf) else
+      let l := fmul (fsub y2 y1) (finv (fsub x2 x1)) in
+      let x3 := fsub (fsub (fmul l l) x1) x2 in
+      G1Aff x3 (fsub (fmul l (fsub x1 x3)) y1)
+  end.
+Fixpoint g1_mul_nat (k : nat) (a : g1) : g1 :=
+  match k with O => G1Inf | S k' => g1_add (g1_mul_nat k' a) a end.
+(* sig.go Sign: ScalarMult(hashToG1(msg), sk) — here for a small scalar *)
+Definition sign_small (digest : bytes) (k : nat) : g1 := g1_mul_nat k (hash_to_g1 digest).
